@@ -43,6 +43,9 @@ ASSUMPTIONS = [
     "index/diff.py:_diff visits every key of either index exactly once (C08); the model uses the flat union",
     "dvc_objects temp files '.<22 chars>.tmp' left beside a destination that os.replace refused are ignored by the walk (counted)",
     "link types limited to copy/hardlink/symlink (no reflink on this file system)",
+    "without delete, a target file whose path is occupied by a non-empty directory of the prior workspace cannot "
+    "be created (copy: IsADirectoryError through onerror; hardlink/symlink: FileExistsError swallowed by "
+    "dvc_objects transfer): no clause of the property covers a kind conflict with deletion off - modelled, not judged",
     "when a source is unavailable the entry is reported through onerror first; _chmod_files may then raise "
     "FileNotFoundError out of apply for an executable entry that could not be created (os.stat outside the try): "
     "modelled (o_raised), not judged - only the 'reported' clause of the property applies to unavailable data",
@@ -325,9 +328,11 @@ def run_real(ctx, case):
     for tid in case.get("rm_trees", []):
         if tid in trees:
             p = odb.oid_to_path(trees[tid][1])
-            os.chmod(p, 0o644)
-            os.unlink(p)
-            gone_trees.add(tid)
+            if os.path.exists(p):
+                os.chmod(p, 0o644)
+                os.unlink(p)
+            # equal listings are one object: every entry naming it is unavailable
+            gone_trees.update(t2 for t2 in trees if trees[t2][1] == trees[tid][1])
     mk_ws(wsdir, case["prior"])
     cerrs = []
     if case.get("collect_onerror"):
@@ -587,6 +592,17 @@ def scripted():
                             "cls": "local"})
         out.append({"prior": prior, "target_tree": target, "form": "build", "delete": False, "link": "copy",
                     "cls": "base"})
+    # targets made of file entries only: parents exist only implicitly (8c795c3, ed61977)
+    impl_pairs = [
+        ({}, {"a/b": A, "a/c/a": B}),                                # parents absent from the workspace
+        ({"a": A}, {"a/b": A, "a/c/a": B}),                          # a file where an implicit directory goes
+        ({"a/b": A, "a/c/a": B, "a/c/b": A}, {"a/b": A, "a/c/a": B}),  # implicit directories already there
+        ({"a/c/b": A}, {"a/b": B}),                                  # implicit directory emptied, then needed
+    ]
+    for prior, target in impl_pairs:
+        for link in ("copy", "hardlink", "symlink"):
+            out.append({"prior": prior, "target_tree": target, "form": "implicit", "delete": True, "link": link,
+                        "cls": "local"})
     return out
 
 
@@ -611,6 +627,8 @@ def gen_case(ctx, form=None):
         if files_of(target) or rng.random() < 0.1:
             break
     r = rng.random()
+    if form == "implicit" and r < 0.3:
+        r = 0.99  # an empty workspace: every implicit parent has to be made
     if r < 0.55:
         prior = mutate(rng, target)
     elif r < 0.9:
